@@ -336,7 +336,7 @@ def run_job(job, workdir):
         gb = b
     else:
         gb = a
-    cmd = ["cbmc", gb, "--json-ui"] + job.checks + job.flags + job.solver
+    cmd = ["cbmc", gb, "--json-ui", "--drop-unused-functions"] + job.checks + job.flags + job.solver
     if job.object_bits:
         cmd += ["--object-bits", str(job.object_bits)]
     if job.unwind is not None:
@@ -556,9 +556,12 @@ class Check:
             if j.loop_contracts and r["status"] == "proved" and not r.get("loop_invariant_obligations"):
                 infra.append("%s: loop contracts requested but no loop invariant obligations generated" % j.name)
         if self.violations:
-            for v in self.violations:
+            vs = sorted(self.violations, key=lambda v: not v["confirmed"])
+            for v in vs[:4]:
                 tail = "" if v["confirmed"] else " no-failing-input-found"
                 print("VIOLATION property=%s replay=%s obligation=%s %s%s" % (self.pid, v["replay"], v["obligation"], v["text"], tail))
+            if len(vs) > 4:
+                print("(%d more failed obligations for %s listed in %s)" % (len(vs) - 4, self.pid, os.path.join(VERIF, "evidence", self.pid + ".json")))
             self.evidence("violation")
             return 1
         if infra or self.undecided:
